@@ -51,7 +51,7 @@ def run(pid, tier, args):
         for f in vlib.parse_lines(res.lines, "API"):
             spec[(f[0], int(f[1]), int(f[2]))] = (f[3], "|".join(f[4:]))
         ncases = 0
-        for variant in ("core", "generated", "upper", "generated-upper"):
+        for variant in ("core", "generated", "plain", "upper", "generated-upper"):
             outp = os.path.join(wd, "api-%s.txt" % variant)
             vlib.vh(vhgen, ["api-run", cp, variant], outfile=outp, timeout=3000)
             calls = {}
@@ -87,7 +87,7 @@ def run(pid, tier, args):
                     other = next(ep for ep in outs if outs[ep] != ref)
                     bad = "ParseString gives %s but %s gives %s" % (ref[:120], other, outs[other][:120])
                 louts = {ep: eps[ep] for ep in LEX_EPS if ep in eps}
-                if not bad and variant in ("core", "generated") and len(set(louts.values())) > 1:
+                if not bad and variant in ("core", "generated", "plain") and len(set(louts.values())) > 1:
                     other = next(ep for ep in louts if louts[ep] != louts["Lex"])
                     bad = "Parser.Lex gives %s but %s gives %s" % (louts["Lex"][:100], other, louts[other][:100])
                 pl = {ep: eps[ep] for ep in ("Lex", "Lex(DataErrReader)", "Lex(named reader)") if ep in eps}
@@ -99,7 +99,7 @@ def run(pid, tier, args):
                     if len(set(dl.values())) > 1:
                         bad = "the definition's Lex/LexString/LexBytes disagree"
                 s_after, s_out = spec.get(key, (None, None))
-                if not bad and variant in ("core", "generated") and s_out not in (None, "bug", "skip"):
+                if not bad and variant in ("core", "generated", "plain") and s_out not in (None, "bug", "skip"):
                     after = eps.get("ParseFromLexer+AllowTrailing")
                     if after is not None and s_after != "bug" and after != s_after:
                         bad = "after ParseFromLexer with trailing input allowed the caller's lexer is at [%s], specification [%s]" % (after, s_after)
@@ -116,6 +116,6 @@ def run(pid, tier, args):
         v.validated(ncases)
         k0 = next(iter(spec))
         v.sample({"case": P.describe(byid[k0[0]], k0), "specification": {"after_ParseFromLexer": spec[k0][0], "every_entry_point": spec[k0][1][:300]}})
-        v.notes["family"] = "%d seeded F_core grammars x exhaustive short + sampled inputs x lookaheads; lexer variants: stateful core, generated core (compiled `participle gen lexer` output), each with and without Upper(Ident); entry points: %s; %s" % (len(gs), ", ".join(PARSE_EPS + ["ParseFromLexer+AllowTrailing"]), ", ".join(LEX_EPS))
+        v.notes["family"] = "%d seeded F_core grammars x exhaustive short + sampled inputs x lookaheads; lexer variants: stateful core, generated core (compiled `participle gen lexer` output), each with and without Upper(Ident), and the core definition behind a wrapper that offers only Lex(filename, reader); entry points: %s; %s" % (len(gs), ", ".join(PARSE_EPS + ["ParseFromLexer+AllowTrailing"]), ", ".join(LEX_EPS))
         v.assumptions += ["the text/scanner default lexer's entry points are exercised by C04/C06/C18, not here", "custom Parseable root types are not part of the family"]
     return v.finish()
